@@ -828,8 +828,8 @@ theorem C31_neg_literal_uniform (t : Expr) (h : t.WF) (σ : Atom → Atom)
 /-- **Arbitrary context.** On *every* token list — any left context, any enclosing binding power,
     parenthesised or not — whenever the reference parser (in which `-` is a prefix operator of level 6
     whatever its operand and whatever encloses it) produces a tree, the parser of `/repo` produces
-    exactly the same tree and remainder.  (The converse fails only for `-9223372036854775808`, which
-    the reference cannot spell.)  In particular whether a literal keeps its sign never depends on the
+    exactly the same tree and remainder.  (One direction only: the converse is not claimed — the code
+    accepts `-9223372036854775808`, see `C31_neg_literal_examples`, which the reference cannot spell.)  In particular whether a literal keeps its sign never depends on the
     operator to its left: `9 % -2 * 4` is `9 % (-(2 * 4))` like `9 % -x * 4`. -/
 theorem C31_code_extends_reference (toks : List Tok) (e : Expr) (r : List Tok)
     (h : parseExprWith .never toks = .ok e r) : parseExpr toks = .ok e r :=
